@@ -551,7 +551,24 @@ def path_exprs(func_node, pick, max_paths=256):
             env = straight_line_env([st], None, env)
 
     run(list(func_node.body), [], {})
-    return out
+    # a conditional expression is two paths (the canonical form writes `if c: t = A else: t = B` as `t = A if c else B`)
+    flat = []
+
+    def split(conds, e, env):
+        if isinstance(e, ast.IfExp):
+            t = subst(e.test, env)
+            c = _const_test(t)
+            if c is None:
+                split(conds + [(t, True)], e.body, env)
+                split(conds + [(t, False)], e.orelse, env)
+            else:
+                split(conds, e.body if c else e.orelse, env)
+        else:
+            flat.append((conds, e, env))
+
+    for conds, e, env in out:
+        split(conds, e, env)
+    return flat
 
 
 def assigned_exprs(func_node, target):
